@@ -390,6 +390,8 @@ def call_strategy(families=False):
             hemi=st.just("south"), ell=st.just("ans"), prj=st.just("isg")),
         _fd("llh2xyz", lat=S.floats(-90, 90), lon=S.floats(-180, 180), h=S.floats(-100, 9000), ell=_ell, kind=_kind),
         _fd("xyz2llh", x=S.floats(-6e6, 6e6), y=S.floats(1e5, 6e6), z=S.floats(-6e6, 6e6), ell=_ell),
+        _fd("xyz2llh", x=st.sampled_from([-4052051.7643, -6378137.0, 5000000.0]), y=st.sampled_from([0.0, -0.0]),
+            z=st.sampled_from([-2545106.0245, 0.0, -0.0, 3000000.0]), ell=st.sampled_from(["grs80", "ans"])),
         _fd("polar2rect", r=S.floats(0, 1e5), theta=S.floats(0, 360)),
         _fd("rect2polar", x=S.floats(-1e5, 1e5), y=S.floats(-1e5, 1e5)),
         _fd("vincdir", lat=S.floats(-89, 89), lon=_lon, az=S.floats(0, 360), s=S.floats(1.0, 1e7), ell=_ell, kind=_kind),
